@@ -41,6 +41,28 @@ var sliceHelpers = []sliceHelper{
 	{"Partition", 0, func(a, b []int) [][]int { p := gogu.Partition(a, isOdd); return [][]int{p[0], p[1]} }},
 	{"DropWhile", 0, func(a, b []int) [][]int { return [][]int{gogu.DropWhile(a, isOdd)} }},
 	{"DropRightWhile", 0, func(a, b []int) [][]int { return [][]int{gogu.DropRightWhile(a, isOdd)} }},
+	// predicates that drop / keep everything: the branches on which a helper has nothing to return
+	{"DropRightWhileAll", 0, func(a, b []int) [][]int {
+		return [][]int{gogu.DropRightWhile(a, func(int) bool { return true }), gogu.DropRightWhile(a, func(int) bool { return false })}
+	}},
+	{"DropWhileAll", 0, func(a, b []int) [][]int {
+		return [][]int{gogu.DropWhile(a, func(int) bool { return true }), gogu.DropWhile(a, func(int) bool { return false })}
+	}},
+	{"FilterAll", 0, func(a, b []int) [][]int {
+		return [][]int{gogu.Filter(a, func(int) bool { return true }), gogu.Filter(a, func(int) bool { return false })}
+	}},
+	// the two-argument forms take their numbers from the caller's slice (a spread call)
+	{"Range2", 0, func(a, b []int) [][]int {
+		if len(a) < 2 {
+			return nil
+		}
+		r1, _ := gogu.Range(a[:2]...)
+		r2, _ := gogu.RangeRight(a[:2]...)
+		r3, _ := gogu.Range(a[:1]...)
+		return [][]int{r1, r2, r3}
+	}},
+	// one flipped function per scenario, called again and again: its results must stay independent
+	{"Flip", 0, func(a, b []int) [][]int { return [][]int{frameFlip(a...), frameFlip(b...)} }},
 	{"Map", 0, func(a, b []int) [][]int { return [][]int{gogu.Map(a, func(x int) int { return x + 1 })} }},
 	{"Chunk", 0, func(a, b []int) [][]int { return gogu.Chunk(a, 2) }},
 	{"Drop", 0, func(a, b []int) [][]int { return [][]int{gogu.Drop(a, 1), gogu.Drop(a, -1)} }},
@@ -73,6 +95,11 @@ var sliceHelpers = []sliceHelper{
 		gogu.Reduce(a, func(v, acc int) int { return acc + v }, 0)
 		gogu.FindMinBy(a, func(x int) int { return -x })
 		gogu.SumBy(a, func(x int) int { return x })
+		if len(a) > 0 {
+			gogu.Min(a...)
+			gogu.Max(a...)
+			gogu.Mean(a)
+		}
 		return nil
 	}},
 	{"Merge", 0, func(a, b []int) [][]int { return [][]int{gogu.Merge(a, b)} }},
@@ -142,6 +169,9 @@ var mapHelpers = []mapHelper{
 	}},
 }
 
+// frameFlip is created once per scenario (see "bufs")
+var frameFlip func(args ...int) []int
+
 // frameKeys is the caller's key list handed to the variadic map helpers with a spread call
 // (Pick(m, ks...), Omit(m, ks...)): a view of length 3 onto a backing array with spare capacity.
 var frameKeys []int
@@ -192,6 +222,7 @@ func (s *frameSys) reread() [][]int {
 func (s *frameSys) Do(o tt.Op) tt.Res {
 	switch o.N {
 	case "bufs":
+		frameFlip = gogu.Flip(func(args ...int) []int { return append([]int{}, args...) })
 		s.kind = o.F
 		if s.kind == "map" {
 			s.m = mapOf(o.L[0])
